@@ -529,7 +529,13 @@ impl Scanner {
                 "$" => {
                     let s = self.advance();
                     if s != "{" {
-                        return self.error_token("Expected '{' in string interpolation.");
+                        // The character is consumed; if it ends a line, the line still counts.
+                        let newline = s == "\n";
+                        let token = self.error_token("Expected '{' in string interpolation.");
+                        if newline {
+                            self.line += 1;
+                        }
+                        return token;
                     }
                     if self.parantheses.len() >= common::INTERPOLATION_DEPTH_MAX {
                         return self.error_token("Max interpolation depth exceeded.");
@@ -543,6 +549,7 @@ impl Scanner {
                 }
                 "\\" => {
                     let s = self.advance();
+                    let newline = s == "\n";
                     match s {
                         "$" => buffer.push_str("$"),
                         "a" => buffer.push_str("\x07"),
@@ -583,7 +590,12 @@ impl Scanner {
                         "\\" => buffer.push_str("\\"),
                         "0" => buffer.push_str("\0"),
                         _ => {
-                            return self.error_token("Invalid escape sequence.");
+                            // The character is consumed; if it ends a line, the line still counts.
+                            let token = self.error_token("Invalid escape sequence.");
+                            if newline {
+                                self.line += 1;
+                            }
+                            return token;
                         }
                     }
                 }
